@@ -475,6 +475,13 @@ def m_x_Call(self, st, n, k):
 
 
 def m_call(self, st, f, pos, kws, kwstar, starv, k, node=None):
+    if isinstance(f, VDyn) and starv is not None and not pos and not kws:
+        return self.call_apply_seq(st, f, starv, k)
+    if isinstance(f, VDyn) and starv is not None:
+        # op(pkt, *vargs, **kargs): the extra arguments are passed through unchanged (opaque context)
+        if isinstance(starv, VSeqAbs) and starv.tag == 'opaque-varargs':
+            return self.call_dyn(st, f, pos, dict(kws, varargs=VInt(starv.n)), kwstar, k)
+        raise Untranslated('call with *args of %s' % getattr(starv, 'tag', starv.kind))
     if isinstance(f, VClassSym):
         r = self.alloc(st, f.base)
         obj = VRef(r, f.base)
@@ -1178,7 +1185,11 @@ def m_bi_reversed(self, st, pos, kws, k):
         arr = z3.Select(st.heap['lat'], v.z)
         v = VSeqAbs(n, lambda i: VDyn(z3.Select(arr, i)), 'list')
     if isinstance(v, VSeqAbs):
-        return k(st, VSeqAbs(v.n, lambda i, v=v: v.elem(v.n - 1 - i), 'reversed:' + v.tag))
+        r = VSeqAbs(v.n, lambda i, v=v: v.elem(v.n - 1 - i), 'reversed:' + v.tag)
+        if hasattr(v, 'src'):
+            arr, lo, n, order = v.src
+            r.src = (arr, lo, n, 'rev' if order == 'fwd' else 'fwd')
+        return k(st, r)
     raise Untranslated('reversed(%s)' % v.kind)
 
 
@@ -1359,6 +1370,24 @@ def m_bm_list_insert(self, st, l, pos, kws, k):
     st.heap['lat'] = z3.Store(st.heap['lat'], l.z, new)
     st.heap['llen'] = z3.Store(st.heap['llen'], l.z, n + 1)
     return self.with_raises(st, [(c, 'TypeError')], lambda st: k(st, VNone()))
+
+
+def m_bm_list_pop(self, st, l, pos, kws, k):
+    n = self.llen(st, l.z)
+    arr = z3.Select(st.heap['lat'], l.z)
+    if pos:
+        i, c = self.as_int(pos[0])
+        i1 = z3.If(i < 0, i + n, i)
+    else:
+        i1, c = n - 1, z3.BoolVal(False)
+    val = VDyn(z3.Select(arr, i1))
+    j = z3.Int('j!pop')
+
+    def cont(st):
+        st.heap['lat'] = z3.Store(st.heap['lat'], l.z, z3.Lambda([j], z3.If(j < i1, z3.Select(arr, j), z3.Select(arr, j + 1))))
+        st.heap['llen'] = z3.Store(st.heap['llen'], l.z, n - 1)
+        return k(st, val)
+    return self.with_raises(st, [(c, 'TypeError'), (z3.Or(n == 0, i1 < 0, i1 >= n), 'IndexError')], cont)
 
 
 def m_bm_list_reverse(self, st, l, pos, kws, k):
@@ -1543,7 +1572,7 @@ def m_call_class(self, st, cls, pos, kws, kwstar, k):
         r = self.alloc(st, cls)
         obj = VRef(r, cls)
         st.assume(self.exact_class(r, cls))
-        c = self.method_contract(cls, '__init__')
+        c = self.method_contract(cls, '__init__') or self.contracts.get('role:%s.__init__' % cls)
         if c is None:
             raise Untranslated('no contract for %s.__init__' % cls)
         if cls == 'PacketError':
@@ -1598,6 +1627,24 @@ def m_call_cb(self, st, fnid, pos, kws, kwstar, k):
     self.do_raise(s2, VExc('OtherException*', eid=fresh('eid', T.I)))
     st.assume(z3.Not(rz))
     return k(st, VDyn(res))
+
+
+def m_call_apply_seq(self, st, f, seq, k):
+    """f(*seq) for a dynamic callable: the result is an uninterpreted function of the callable, the
+    operand array and the operand count; the ORDER in which the operands are taken from the array is
+    part of the function symbol (reversed slice vs. slice), so swapping it changes the term."""
+    if not isinstance(seq, VSeqAbs) or not hasattr(seq, 'src'):
+        raise Untranslated('f(*%s)' % getattr(seq, 'tag', seq.kind))
+    arr, lo, n, order = seq.src
+    fn = z3.Function('apply_' + order, T.I, z3.ArraySort(T.I, T.Val), T.I, T.I, T.Val)
+    rz = z3.Function('apply_raises_' + order, T.I, z3.ArraySort(T.I, T.Val), T.I, T.I, T.B)
+    fid = callable_id(f.z)
+    s2 = st.fork('op-raises')
+    s2.assume(rz(fid, arr, lo, n))
+    self.do_raise(s2, VExc('OtherException*', eid=fresh('eid', T.I)))
+    st.assume(z3.Not(rz(fid, arr, lo, n)))
+    return self.with_raises(st, [(z3.Not(self.is_callable(f.z)), 'TypeError')],
+                            lambda st: k(st, VDyn(fn(fid, arr, lo, n))))
 
 
 def m_call_dyn(self, st, f, pos, kws, kwstar, k):
@@ -2258,9 +2305,14 @@ def m_verify_function(self, c):
                 st.assume(z < st.heap['next'])
     st.assume(st.heap['next'] >= 0)
     st.loc = dict(env)
+    for nm, kind in getattr(c, 'closure', {}).items():      # free variables captured from the enclosing function
+        cz = fresh(nm, self.kind_sort(kind))
+        env[nm] = self.wrap(kind, cz)
+        st.loc[nm] = env[nm]
     self.fn_env = env
     # python argument names are locals; check signature agreement
-    argnames = [a.arg for a in node.args.args] + ([node.args.kwarg.arg] if node.args.kwarg else [])
+    argnames = [a.arg for a in node.args.args] + ([node.args.vararg.arg] if node.args.vararg else []) + \
+        ([node.args.kwarg.arg] if node.args.kwarg else [])
     declared = [p for p in c.params if not p.startswith('ghost_')]
     if argnames != declared:
         raise Untranslated('signature of %s is %s but the contract declares %s' % (c.target, argnames, declared))
